@@ -134,6 +134,32 @@ func (o prodOp) applyReal(m *ast.DataMessage) (res *ast.DataMessage, pan string)
 	}
 }
 
+// saturate uses a message the way other code holding it might: it derives siblings through every
+// producer and observes them and the message itself. Messages are immutable, so this must not
+// influence anything derived from the message afterwards (ancestor DAGs instead of single paths:
+// caches copied into derived messages, memoised results stored in the receiver).
+func saturate(m *ast.DataMessage) {
+	obs := func(x *ast.DataMessage) {
+		if x != nil {
+			_, _, _, _ = x.ToBytes(), x.String(), x.Variables(), x.SystemBytes()
+		}
+	}
+	obs(m)
+	try := func(f func() *ast.DataMessage) {
+		defer func() { recover() }()
+		obs(f())
+	}
+	try(func() *ast.DataMessage { return m.SetWaitBit(true) })
+	try(func() *ast.DataMessage { return m.SetWaitBit(false) })
+	try(func() *ast.DataMessage { return m.SetSessionIDAndSystemBytes(4321, []byte{0x77, 0x66}) })
+	try(func() *ast.DataMessage { return m.FillVariables(map[string]interface{}{}) })
+	if v := m.Variables(); len(v) > 0 {
+		try(func() *ast.DataMessage { return m.FillVariables(map[string]interface{}{v[0]: 1}) })
+		try(func() *ast.DataMessage { return m.FillVariables(map[string]interface{}{v[0]: "q"}) })
+	}
+	obs(m)
+}
+
 var c18Items = []*ref.Node{
 	nil,
 	ref.List(ref.Uints(ref.U1, 1, 2), ref.Ascii("ok")),
@@ -176,7 +202,7 @@ func opsFor(r rmsg) []prodOp {
 func init() {
 	h.Register(&h.Check{
 		ID:   "C18",
-		Rule: "explicit-state BFS: states are R-msg records reached by producer histories from 108 initial messages (wait bit x function parity x session x item x name x direction); transitions are real calls of SetWaitBit(true|false), SetSessionIDAndSystemBytes(5 ids x 6 buffer lengths) and FillVariables(every sub-assignment, unknown keys, a rejected value) replayed on fresh objects; after every transition all observables (Name, StreamCode, FunctionCode, WaitBit, Direction, SessionID, SystemBytes, Header, String, Variables, ToBytes) are compared with the record, accepted/refused must agree with the record model, and the source message must be unchanged; states = distinct records visited",
+		Rule: "explicit-state BFS: states are R-msg records reached by producer histories from 108 initial messages (wait bit x function parity x session x item x name x direction); transitions are real calls of SetWaitBit(true|false), SetSessionIDAndSystemBytes(5 ids x 6 buffer lengths) and FillVariables(every sub-assignment, unknown keys, a rejected value) replayed on fresh objects, once plainly and once with every object on the way first used for sibling derivations and observations (ancestor DAGs); after every transition all observables (Name, StreamCode, FunctionCode, WaitBit, Direction, SessionID, SystemBytes, Header, String, Variables, ToBytes) are compared with the record, accepted/refused must agree with the record model, and the source message must be unchanged; states = distinct records visited",
 		Build: func(tier string, seed int64) []h.Space {
 			depth := 3
 			if tier == "thorough" {
@@ -234,48 +260,58 @@ func init() {
 						var next []node
 						for _, nd := range frontier {
 							for _, op := range opsFor(nd.rec) {
-								// successor = replay the history on a fresh object + one transition
-								m := mkRoot(roots[i])
-								for _, o := range nd.hist {
-									m, _ = o.applyReal(m)
-								}
-								before := viewOf(m)
-								beforeBytes := append([]byte{}, m.ToBytes()...)
-								beforeSys := append([]byte{}, m.SystemBytes()...)
-								res, pan := op.applyReal(m)
-								wantRec, ok := op.applyRef(nd.rec)
-								c.Ops(len(nd.hist) + 1)
-								hdesc := nd.rec.key() + " --" + op.desc + "-->"
-								c.Case(0, true, op.kind)
-								if (pan == "") != ok {
-									c.Fail("producer-acceptance-differs:"+op.kind, hdesc, fmt.Sprintf("record model accepts=%v, real call panic=%q", ok, pan))
-									continue
-								}
-								// the source message is untouched
-								if d := before.diff(viewOf(m)); d != "" || !bytes.Equal(beforeBytes, m.ToBytes()) || !bytes.Equal(beforeSys, m.SystemBytes()) {
-									c.Fail("producer-changed-its-receiver:"+op.kind, hdesc, d)
-								}
-								if !ok {
-									continue
-								}
-								if d := wantRec.observe(res); d != "" {
-									c.Fail("frame-condition-violated:"+op.kind, hdesc, d)
-									continue
-								}
-								// the result passes the same validity rules as a fresh message: re-construct it
-								if p := catch(func() {
-									var it ast.ItemNode = ast.NewEmptyItemNode()
-									if wantRec.Item != nil {
-										it = Build(wantRec.Item)
+								for variant := 0; variant < 2; variant++ {
+									// successor = replay the history on a fresh object + one transition; in the
+									// saturated variant every object on the way is also used for sibling derivations
+									// and observations first (they must not leave a trace)
+									m := mkRoot(roots[i])
+									for _, o := range nd.hist {
+										if variant == 1 {
+											saturate(m)
+										}
+										m, _ = o.applyReal(m)
 									}
-									ast.NewDataMessage(res.Name(), res.StreamCode(), res.FunctionCode(), wantRec.W, res.Direction(), it).SetSessionIDAndSystemBytes(res.SessionID(), res.SystemBytes())
-								}); p != nil {
-									c.Fail("result-fails-constructor-validity", hdesc, fmt.Sprint(p))
-								}
-								k := wantRec.key()
-								if !seen[k] {
-									seen[k] = true
-									next = append(next, node{append(append([]prodOp{}, nd.hist...), op), wantRec})
+									if variant == 1 {
+										saturate(m)
+									}
+									before := viewOf(m)
+									beforeBytes := append([]byte{}, m.ToBytes()...)
+									beforeSys := append([]byte{}, m.SystemBytes()...)
+									res, pan := op.applyReal(m)
+									wantRec, ok := op.applyRef(nd.rec)
+									c.Ops(len(nd.hist) + 1)
+									hdesc := nd.rec.key() + " --" + op.desc + "-->"
+									c.Case(0, true, op.kind)
+									if (pan == "") != ok {
+										c.Fail("producer-acceptance-differs:"+op.kind, hdesc, fmt.Sprintf("record model accepts=%v, real call panic=%q", ok, pan))
+										continue
+									}
+									// the source message is untouched
+									if d := before.diff(viewOf(m)); d != "" || !bytes.Equal(beforeBytes, m.ToBytes()) || !bytes.Equal(beforeSys, m.SystemBytes()) {
+										c.Fail("producer-changed-its-receiver:"+op.kind, hdesc, d)
+									}
+									if !ok {
+										continue
+									}
+									if d := wantRec.observe(res); d != "" {
+										c.Fail("frame-condition-violated:"+op.kind, hdesc, d)
+										continue
+									}
+									// the result passes the same validity rules as a fresh message: re-construct it
+									if p := catch(func() {
+										var it ast.ItemNode = ast.NewEmptyItemNode()
+										if wantRec.Item != nil {
+											it = Build(wantRec.Item)
+										}
+										ast.NewDataMessage(res.Name(), res.StreamCode(), res.FunctionCode(), wantRec.W, res.Direction(), it).SetSessionIDAndSystemBytes(res.SessionID(), res.SystemBytes())
+									}); p != nil {
+										c.Fail("result-fails-constructor-validity", hdesc, fmt.Sprint(p))
+									}
+									k := wantRec.key()
+									if !seen[k] {
+										seen[k] = true
+										next = append(next, node{append(append([]prodOp{}, nd.hist...), op), wantRec})
+									}
 								}
 							}
 						}
